@@ -90,7 +90,7 @@ structure ClassInfo where
   kind : Bytes
 deriving Repr, DecidableEq, Inhabited
 
-/-- the environment of the cluster-level functions: file reads (`os.ReadFile`, `none` = error), and the
+/-- the environment of the cluster-level functions: file reads (`readRegularFile` since fixes/entry/02: `os.ReadFile` on a regular file; `none` = error, which now includes a path that is not a regular file), and the
 results of the pg_database / pg_class parsers on a file's bytes.  `parseClass` returns the map as an
 association list keyed by filenode (unique keys).  `order` is the order in which Go's `range tables` yields
 the entries of that map: unspecified, different from call to call — any rearrangement (`id` by default). -/
